@@ -342,6 +342,19 @@ def run(ctx):
                        not inv["module"] and not inv["param_attr_writes"], json.dumps({k: inv[k] for k in ("module", "param_attr_writes")}))
     except SyntaxError as e:
         ctx.obligation("gen:memo_only_on_chunk", False, "api.py does not parse: %s" % e)
+    # -------- inventory (regenerated from the source on every run): the three parsers of partition-directory text (labels in
+    # api._path_to_cats, cells in core.read_row_group, what a filter constant is compared with in api.filter_out_cats) apply the same
+    # decoding to the raw text before typing it; fail closed (nothing claimed) when a parser's text variable is not found
+    try:
+        dd = py2coq.dirtext_decoders(os.path.join(C.REPO, "fastparquet", "api.py"), os.path.join(C.REPO, "fastparquet", "core.py"))
+        ctx.extra["directory_text_decoders"] = dd
+        if all(v is not None for v in dd.values()):
+            ctx.obligation("gen:directory_text_decoders_agree (labels / cells / filter apply the same decoding to a directory name)",
+                           dd["labels"] == dd["cells"] == dd["filter"], json.dumps(dd))
+        else:
+            ctx.notes.append("directory_text_decoders: not located for %s (oracle stream `oddpart` only)" % [k for k, v in dd.items() if v is None])
+    except SyntaxError as e:
+        ctx.obligation("gen:directory_text_decoders_agree", False, "source does not parse: %s" % e)
     C.use_shadow()
     warnings.filterwarnings("ignore")
     rng = ctx.rng
